@@ -115,8 +115,10 @@ class TimePointDumper(object):
                 properties += item_properties
             else:
                 expression += item
+        # strftime directives describe the civil (calendar) date: %Y of a week
+        # date is the calendar year, not the ISO week-numbering year
         return self._dump_expression_with_properties(
-            timepoint, expression, properties)
+            timepoint.to_calendar_date(), expression, properties)
 
     def _dump_expression_with_properties(self, timepoint, expression,
                                          properties, custom_time_zone=None):
